@@ -53,7 +53,15 @@ func HarnessC16Snippet(L int) {
 	src := verifSymString("source", L)
 	for i := 0; i < L; i++ {
 		// printable ASCII or newline: display width equals byte count
-		verifAssumeNote(verifOr(src[i] == '\n', verifAnd(0x20 <= src[i], src[i] <= 0x7e)), "C16 snippet: source is printable ASCII and LF")
+		verifAssumeNote(verifOr(verifOr(src[i] == '\n', src[i] == '\r'), verifAnd(0x20 <= src[i], src[i] <= 0x7e)), "C16 snippet: source is printable ASCII, CR and LF")
+	}
+	for i := 0; i < L; i++ {
+		// a CR only as part of a CRLF line end (a lone CR has no display width and is not a line end here)
+		next := false
+		if i+1 < L {
+			next = src[i+1] == '\n'
+		}
+		verifAssumeNote(verifImplies(src[i] == '\r', next), "C16 snippet: CR only directly before LF")
 	}
 	line, col := verifSymInt("line"), verifSymInt("col")
 	e := &Error{Message: "m", Filepath: "f", Line: line, Column: col, Kind: "k"}
@@ -66,6 +74,9 @@ func HarnessC16Snippet(L int) {
 	for n := range lines {
 		if line == n+1 {
 			ln := lines[n]
+			if len(ln) > 0 && ln[len(ln)-1] == '\r' {
+				ln = ln[:len(ln)-1] // CRLF line end
+			}
 			verifReach("line-found")
 			if col >= 1 && col-1 <= len(ln) {
 				parts := strings.SplitN(f.Snippet, "\n", 2)
@@ -262,6 +273,22 @@ func HarnessC16CallPath(L int) {
 	lw := NewLocalReusableWorkflowCache(proj, "/r", nil)
 	la := NewLocalActionsCache(proj, nil)
 	errs := verifLintNode(doc, []Rule{NewRuleWorkflowCall("/r/.github/workflows/w.yml", lw), NewRuleExpression(la, lw)})
+	for _, e := range errs {
+		verifReach("diagnostic")
+		verifCheck(verifNot(verifMsgHasRawNewline(e.Message)), "raw-line-break-in-message")
+	}
+	verifReach("linted")
+}
+
+// HarnessC16Event: an event name of L arbitrary bytes under `on:` with a
+// filter below it (unknown events are echoed by several checks).
+func HarnessC16Event(L int) {
+	K := verifSymString("event", L)
+	s := yScalar
+	filter := []string{"branches", "tags-ignore", "paths", "types"}[verifChoose("filter", 4)]
+	doc := yDoc(yMap(s("on"), yMap(s(K), yMap(s(filter), ySeq(s("main")))), s("jobs"), yMap(s("j"), yMap(s("runs-on"), s("ubuntu-latest"), s("steps"), ySeq(yMap(s("run"), s("echo")))))))
+	verifPlace(doc, 1, 0)
+	errs := verifLintNode(doc, verifRulesNoDeprecated())
 	for _, e := range errs {
 		verifReach("diagnostic")
 		verifCheck(verifNot(verifMsgHasRawNewline(e.Message)), "raw-line-break-in-message")
